@@ -41,6 +41,9 @@ type Program struct {
 	Procs   int     `json:"procs"`
 	Pre     []int   `json:"pre"`   // toggled patterns registered before the goroutines start
 	Trace   bool    `json:"trace"` // router created with a TRACE handler as well
+	// Rounds > 1: a tiny program that is run this many times, each time on a fresh router, inside one
+	// child process - narrow windows need many schedule samples of a short program rather than one long one
+	Rounds int `json:"rounds,omitempty"`
 }
 
 type upat struct {
@@ -64,7 +67,13 @@ var toggled = []struct{ pattern, path string }{
 	// literal siblings of the never-touched /keep/{id}: with them its parent has >= 5 children (first-byte index)
 	{"/keep/a", "/keep/a"}, {"/keep/b", "/keep/b"}, {"/keep/c/one", "/keep/c/one"}, {"/keep/c/two", "/keep/c/two"},
 	{"/keep/d", "/keep/d"}, {"/keep/e", "/keep/e"},
+	// extensions hanging below other toggled routes
+	{"/keep/dd", "/keep/dd"}, {"/keep/a/deep", "/keep/a/deep"},
 }
+
+// duelPairs: a toggled route and another one whose node hangs below it. In a duel the first is
+// registered and removed by several writers while the second is only ever registered.
+var duelPairs = [][2]int{{2, 8}, {14, 16}, {10, 17}, {0, 0}}
 
 var cleanPrefixes = []string{"/keep/{id}/", "/keep2/", "/keep/{id}/y/", "/k/{a}/z", "/keep/c/"}
 
@@ -77,11 +86,47 @@ func gen(t *rapid.T) Program {
 	p.Pre = rapid.SliceOfNDistinct(rapid.IntRange(0, len(toggled)-1), 0, 10, rapid.ID[int]).Draw(t, "pre")
 	nw := rapid.IntRange(1, 4).Draw(t, "nwriters")
 	nr := rapid.IntRange(1, 6).Draw(t, "nreaders")
+	// "duel": several writers toggle the same two or three routes - among them one whose node lies above
+	// never-touched routes - so that a Remove and a Remove+Handle of the same pattern keep meeting
+	var duel []int
+	duelKeep := -1
+	mini := rapid.IntRange(0, 3).Draw(t, "mini") == 0
+	if mini {
+		p.Rounds = rapid.SampledFrom([]int{100, 300, 600}).Draw(t, "rounds")
+		p.Pre = nil
+		nr = rapid.IntRange(0, 2).Draw(t, "miniReaders")
+	}
+	if mini || rapid.IntRange(0, 2).Draw(t, "duel") == 0 {
+		nw = rapid.IntRange(2, 4).Draw(t, "duelWriters")
+		pair := rapid.SampledFrom(duelPairs[:3]).Draw(t, "duelPair")
+		duel = []int{pair[0], pair[0], pair[1]}
+		duelKeep = pair[1]
+		if rapid.Bool().Draw(t, "duelAbove") {
+			duel = append(duel, rapid.SampledFrom([]int{1, 5}).Draw(t, "duelAboveP")) // a node above never-touched routes
+		}
+	}
 	for w := 0; w < nw; w++ {
 		var ops []WOp
-		for i, n := 0, rapid.IntRange(20, rig.Up(200)).Draw(t, "wlen"); i < n; i++ {
+		wlen := rapid.IntRange(20, rig.Up(200)).Draw(t, "wlen")
+		if duel != nil {
+			wlen = rapid.IntRange(500, rig.Up(3000)).Draw(t, "duelLen") // a duel is cheap per step and needs many rounds
+		}
+		if mini {
+			wlen = rapid.IntRange(1, 4).Draw(t, "miniLen")
+		}
+		for i, n := 0, wlen; i < n; i++ {
 			op := WOp{P: rapid.IntRange(0, len(toggled)-1).Draw(t, "wp"), Yield: rapid.IntRange(0, 3).Draw(t, "wy") == 0}
-			switch k := rapid.IntRange(0, 9).Draw(t, "wk"); {
+			k := rapid.IntRange(0, 9).Draw(t, "wk")
+			if duel != nil {
+				op.P = rapid.SampledFrom(duel).Draw(t, "duelP")
+				if k >= 8 {
+					k = 5 // only Handle and Remove
+				}
+				if op.P == duelKeep {
+					k = 0 // the lower route is only ever registered: nothing in the program removes it
+				}
+			}
+			switch {
 			case k < 5:
 				op.Kind = "handle"
 				op.Methods = rapid.SampledFrom(methodSets).Draw(t, "wms")
@@ -100,7 +145,11 @@ func gen(t *rapid.T) Program {
 	}
 	for r := 0; r < nr; r++ {
 		var ops []ROp
-		for i, n := 0, rapid.IntRange(20, rig.Up(200)).Draw(t, "rlen"); i < n; i++ {
+		rlen := rapid.IntRange(20, rig.Up(200)).Draw(t, "rlen")
+		if mini {
+			rlen = rapid.IntRange(1, 5).Draw(t, "miniRlen")
+		}
+		for i, n := 0, rlen; i < n; i++ {
 			op := ROp{Yield: rapid.IntRange(0, 3).Draw(t, "ry") == 0}
 			switch k := rapid.IntRange(0, 9).Draw(t, "rk"); {
 			case k < 4:
@@ -154,6 +203,16 @@ func runProgram(p Program) (map[string]float64, *rig.Violation) {
 	}
 	for _, i := range p.Pre {
 		rig.Try(func() { r.Handle(toggled[i].pattern, newH(toggled[i].pattern), nil, "GET") })
+	}
+	if p.Rounds > 1 {
+		// every pattern some writer removes exists when the round starts
+		for _, ops := range p.Writers {
+			for _, op := range ops {
+				if op.Kind == "remove" || op.Kind == "removeM" {
+					rig.Try(func() { r.Handle(toggled[op.P].pattern, newH(toggled[op.P].pattern), nil, "GET") })
+				}
+			}
+		}
 	}
 	parsed := map[string]*pat.Pattern{}
 	all := map[string]bool{}
@@ -427,11 +486,23 @@ func TestChild(t *testing.T) {
 		fmt.Println("cannot decode case:", err)
 		os.Exit(4)
 	}
-	st, v := runProgram(p)
-	if v != nil {
-		rig.ChildViolation(v)
+	rounds := p.Rounds
+	if rounds < 1 {
+		rounds = 1
 	}
-	rig.ChildOK(st)
+	total := map[string]float64{}
+	for round := 0; round < rounds; round++ {
+		st, v := runProgram(p)
+		if v != nil {
+			v.Msg = fmt.Sprintf("round %d of %d: %s", round, rounds, v.Msg)
+			rig.ChildViolation(v)
+		}
+		for k, x := range st {
+			total[k] += x
+		}
+	}
+	total["rounds"] = float64(rounds)
+	rig.ChildOK(total)
 }
 
 // ---- parent -----------------------------------------------------------------
@@ -462,7 +533,10 @@ func check(p Program, st *rig.Stats) error {
 	}
 	switch res.Kind {
 	case "ok":
-		st.Eval(p, res.Stats["overlapping_reader_ops"] > 0, fmt.Sprintf("procs=%d", p.Procs))
+		st.Eval(p, res.Stats["overlapping_reader_ops"] > 0 || p.Rounds > 1, fmt.Sprintf("procs=%d", p.Procs))
+		if p.Rounds > 1 {
+			st.Class(fmt.Sprintf("mini-program-x%d-rounds", p.Rounds))
+		}
 		st.Class("reader-ops-total")
 		for i := 0; i < int(res.Stats["overlapping_reader_ops"]); i += 50 {
 			st.Class("overlapping-reader-ops(x50)")
